@@ -540,6 +540,14 @@ theorem processEomParams_erase {c : ChanState} {e : EomIn} {x : Rat} (h : proces
 
 def eraseRaw (r : Raw) : Raw := ⟨erase r.st, r.err, r.out⟩
 
+/-- A successful call is not rolled back, on either side of the erasure. -/
+theorem orRollback_erase_of_ok {r r' : Raw} {s : SeqState} (h : (r.orRollback s).err = none)
+    (hr : r' = eraseRaw r) : r'.orRollback (erase s) = eraseRaw (r.orRollback s) := by
+  have h0 : r.err = none := by rw [Raw.orRollback_err] at h; exact h
+  rw [Raw.orRollback_ok h]
+  subst hr
+  exact Raw.orRollback_ok (by rw [Raw.orRollback_err]; exact h0)
+
 @[simp] theorem erase_dev (s : SeqState) : (erase s).dev = eraseDev s.dev := rfl
 @[simp] theorem erase_chans (s : SeqState) : (erase s).chans = s.chans.map eraseChan := rfl
 @[simp] theorem erase_nQ (s : SeqState) : (erase s).nQ = s.nQ := rfl
@@ -1060,7 +1068,8 @@ theorem step_target_erase {s : SeqState} {qs : List Nat} {n : ChName}
     stepRaw (erase s) (.target qs n) = eraseRaw (stepRaw s (.target qs n)) := by
   simp only [stepRaw] at h ⊢
   rw [store_err] at h
-  rw [targetCore_erase h, store_erase]
+  have h0 : (targetCore s qs n).err = none := by rw [Raw.orRollback_err] at h; exact h
+  rw [orRollback_erase_of_ok h (targetCore_erase h0), store_erase]
 
 theorem step_add_erase {s : SeqState} {p : PulseIn} {n : ChName} {proto : Option Protocol}
     (h : (stepRaw s (.add p n proto)).err = none) :
@@ -1141,7 +1150,8 @@ theorem step_delay_erase {s : SeqState} {d : Int} {n : ChName} {atRest : Bool}
     stepRaw (erase s) (.delay d n atRest) = eraseRaw (stepRaw s (.delay d n atRest)) := by
   simp only [stepRaw] at h ⊢
   rw [store_err] at h
-  rw [delayChecked_erase h, store_erase]
+  have h0 : (delayChecked s d n atRest).err = none := by rw [Raw.orRollback_err] at h; exact h
+  rw [orRollback_erase_of_ok h (delayChecked_erase h0), store_erase]
 
 theorem step_phaseShift_erase {s : SeqState} {phi : Rat} {qs : List Nat} {b : Basis} :
     stepRaw (erase s) (.phaseShift phi qs b) = eraseRaw (stepRaw s (.phaseShift phi qs b)) := by
@@ -1171,6 +1181,8 @@ theorem step_align_erase {s : SeqState} {chs : List ChName} {atRest : Bool}
   rw [store_err] at h
   rw [← store_erase]
   congr 1
+  apply orRollback_erase_of_ok h
+  rw [Raw.orRollback_err] at h
   have hany : (chs.any fun n => ((erase s).getChan n).isNone) = (chs.any fun n => (s.getChan n).isNone) := by
     congr 1; funext n; rw [getChan_erase]; cases s.getChan n <;> rfl
   have hmap : (chs.filterMap fun n => ((erase s).getChan n).map fun c => (n, c.getDuration atRest))
@@ -1238,6 +1250,8 @@ theorem step_enableEom_erase {s : SeqState} {n : ChName} {e : EomIn}
           | error er => simp [hp, fail] at h
           | ok detOff =>
             simp only [hp, processEomParams_erase hp] at h ⊢
+            apply orRollback_erase_of_ok h
+            rw [Raw.orRollback_err] at h
             unfold enableEomCommit at h ⊢
             simp only at h ⊢
             obtain ⟨a1, a2, a3⟩ := rbind_ok h
@@ -1272,6 +1286,8 @@ theorem step_disableEom_erase {s : SeqState} {n : ChName} {corr : Bool}
   rw [store_err] at h
   rw [← store_erase]
   congr 1
+  apply orRollback_erase_of_ok h
+  rw [Raw.orRollback_err] at h
   by_cases hm : s.measured.isSome = true
   · rw [if_pos hm] at h; simp [fail] at h
   · have hm' : ¬ (erase s).measured.isSome = true := hm
@@ -1333,6 +1349,8 @@ theorem step_modifyEom_erase {s : SeqState} {n : ChName} {e : EomIn}
         | error er => simp [hp, fail] at h
         | ok detOff =>
           simp only [hp, processEomParams_erase hp] at h ⊢
+          apply orRollback_erase_of_ok h
+          rw [Raw.orRollback_err] at h
           unfold modifyEomCommit at h ⊢
           simp only at h ⊢
           obtain ⟨a1, a2, a3⟩ := rbind_ok h
